@@ -10,7 +10,7 @@ their path sets are equal after rewriting.
 """
 from .expr import LocalEnv, canon, show
 from .facts import kids, short, walk
-from .tables import enum_paths
+from .tables import enum_paths, value_literals
 
 
 def rewrite(t, fn):
@@ -167,7 +167,9 @@ class Summ:
             if t in ('TRUE', 'FALSE') and pol is False:
                 t, pol = ('FALSE' if t == 'TRUE' else 'TRUE'), True
             return ('if', t, pol)
-        labels = tuple(sorted(((l[0], l[2] if l[2] is not None else l[1]) for l in pol), key=repr))
+        def nm(x):
+            return self.rw(x) if isinstance(x, str) else x
+        labels = tuple(sorted((((l[0], l[1], nm(l[2])) + tuple(tuple((v, nm(n)) for v, n in ex) for ex in l[3:])) for l in pol), key=repr))
         return ('switch', self.term(node), labels)
 
     def stmt(self, s):
@@ -226,6 +228,9 @@ class Summ:
                 conds.append(cc)
             if skip:
                 continue
+            conds = value_literals(conds)
+            if conds is None:
+                continue            # every enumerator excluded: not a path
             effs = []
             for s in p.stmts:
                 e = self.stmt(s)
@@ -254,7 +259,7 @@ def show_path(p, maxlen=600):
 def _show_cond(c):
     if c[0] == 'if':
         return ('' if c[2] else 'not ') + show(c[1])
-    return 'switch %s = %s' % (show(c[1]), ','.join(str(l[1]) if l[0] == 'case' else l[0] for l in c[2]))
+    return 'switch %s = %s' % (show(c[1]), ','.join(str(l[2] if l[2] is not None else l[1]) if l[0] == 'case' else l[0] for l in c[2]))
 
 
 def _show_eff(e):
